@@ -535,6 +535,19 @@ def read_facts(fails):
                 "expired": CMP_N[op].format(a="deadline", b="now")}
     hard(["flag_when_finished", "flag_when_expired", "finished_checked_first", "expired"], loop)
 
+    # 2b. the next wake-up of the loop when no socket event happens: the earliest pending deadline
+    def wake():
+        nowm = re.search(r"\blet\s+(%s)\s*=\s*Instant::now\s*\(\s*\)\s*;" % W, run)
+        m = re.search(r"\blet\s+(%s)\s*=\s*self\s*\.\s*tasks\s*\.\s*values\s*\(\s*\)\s*\.\s*filter_map\s*\(\s*\|\s*(%s)\s*\|\s*\2\s*\.\s*timeout\s*\)\s*\.\s*(min|max)\s*\(\s*\)\s*;" % (W, W), run)
+        if not m or not nowm:
+            if re.search(r"\.map\(\|(\w+)\|\1\.timeout\)\.(?:min|max)\(\)", squash(run)):
+                raise Differs("CommandHub::run: the poll timeout is the min/max of OPTIONAL deadlines: one task without deadline (soft stop, reload) removes or distorts the wake-up of every other task")
+            raise Unreadable("CommandHub::run: the computation of the poll timeout from the pending deadlines is not recognised")
+        if not re.search(r"\blet\s+(?:mut\s+)?%s\s*=\s*%s\s*\.\s*map\s*\(\s*\|\s*(%s)\s*\|\s*\1\s*\.\s*saturating_duration_since\s*\(\s*%s\s*\)\s*\)\s*;" % (W, re.escape(m.group(1)), W, re.escape(nowm.group(1))), run):
+            raise Unreadable("CommandHub::run: the poll timeout is no longer `<next deadline> - now`")
+        return {"wake_is_earliest": B(m.group(3) == "min")}
+    hard(["wake_is_earliest"], wake)
+
     # 3. DefaultGatherer: has_finished and the on_message arms
     try:
         dg = block_at(srv, r"\bimpl\s+Gatherer\s+for\s+DefaultGatherer\s*\{", "impl Gatherer for DefaultGatherer")
@@ -1047,6 +1060,7 @@ GEN_SHAPE = [
     ("flag_when_expired", "Definition flag_when_expired : bool := %s."),
     ("finished_checked_first", "Definition finished_checked_first : bool := %s."),
     ("expired", "Definition expired (deadline now : N) : bool := %s."),
+    ("wake_is_earliest", "Definition wake_is_earliest : bool := %s."),
     ("has_finished", "Definition has_finished (ok errors expected : nat) : bool := %s."),
     ("on_message_arm", "Definition on_message_arm (st : status) : arm :=\n  %s."),
     ("retire_on_terminal", "Definition retire_on_terminal (st : status) : bool :=\n  %s."),
@@ -1170,6 +1184,14 @@ class Sim:
                 self.finish(t)
 
 
+def stop_race(s):
+    """a hard stop pending beside another request: the loop wakes up for each deadline in turn (real time), so
+    whether the other request is still answered before the hard stop's own timeout stops the main process
+    (open finding stop-drops-pending) depends on milliseconds the logical clock does not have: no sleep then"""
+    pend = [t for t in s.tasks if not t["done"]]
+    return len(pend) > 1 and any(t["verb"] == "hardstop" for t in pend)
+
+
 def gen_case(rng, cid, allow_sleep, allow_stop, handover=None):
     nw = rng.choice([0, 1, 2, 2, 2, 3, 3])
     nc = rng.choice([1, 2, 2, 3])
@@ -1232,10 +1254,10 @@ def gen_case(rng, cid, allow_sleep, allow_stop, handover=None):
             s.ops.append(["cclose", c])
             s.cgone.add(c)
             s.busy.pop(c, None)
-        elif allow_sleep and nsleep < 2 and pend:
+        elif allow_sleep and nsleep < 2 and pend and not stop_race(s):
             s.sleep(rng.choice([1300, 1300, 300]))    # two partial sleeps stay 400 ms short of the deadline
             nsleep += 1
-    if allow_sleep and nsleep == 0 and any(not t["done"] and t["timed"] for t in s.tasks) and not s.stopped:
+    if allow_sleep and nsleep == 0 and any(not t["done"] and t["timed"] for t in s.tasks) and not s.stopped and not stop_race(s):
         s.sleep(1300)
     s.ops.append(["end"])
     return Case(cid, s.ops, {})
@@ -1256,9 +1278,32 @@ def silent_cases():
     return out
 
 
+def second_round_cases():
+    """the three families added after the second round of seeded changes"""
+    out = []
+    def case(cid, ops):
+        out.append(Case(cid, ops + [["end"]], {}))
+    # the loop's own wake-up: a pending soft stop (no deadline) beside a request whose worker stays silent;
+    # two requests with different deadlines, the check falling between them
+    case("quiet0", [["hub", 2, 1, 2], ["req", 0, "softstop"], ["resp", 0, 0, 0, 1], ["req", 1, "wok"], ["resp", 0, 0, 1, 0], ["sleep", 1300]])
+    case("quiet1", [["hub", 2, 1, 2], ["req", 0, "wok"], ["resp", 0, 0, 0, 0], ["sleep", 300], ["sleep", 300], ["req", 1, "query"],
+                    ["resp", 0, 0, 1, 0], ["sleep", 800], ["sleep", 300], ["sleep", 300]])
+    case("quiet2", [["hub", 1, 1, 3], ["req", 0, "softstop"], ["req", 1, "load", 2], ["resp", 0, 0, 1, 0], ["sleep", 300], ["req", 2, "status"], ["sleep", 1300]])
+    # a main process re-created by from_upgrade_data whose predecessor had issued task ids: late answers to the
+    # predecessor's requests, then new requests of the same verb
+    case("ids0", [["hub2", 2, 1, 2, -1, 4], ["req", 0, "wok"], ["respold", 0, 0, 0], ["resp", 0, 0, 0, 2], ["resp", 1, 1, 0, 0]])
+    case("ids1", [["hub2", 2, 1, 2, -1, 3], ["respold", 1, 2, 0], ["req", 0, "wok"], ["respold", 0, 0, 2], ["respold", 0, 1, 0],
+                  ["req", 1, "wok"], ["respold", 1, 1, 0], ["resp", 0, 0, 0, 0], ["resp", 1, 1, 0, 0], ["resp", 0, 0, 1, 0], ["resp", 1, 1, 1, 2]])
+    case("ids2", [["hub2", 3, 1, 2, 1, 1], ["req", 0, "wok"], ["respold", 0, 0, 0], ["respold", 2, 0, 0], ["resp", 2, 2, 0, 2], ["resp", 0, 0, 0, 0]])
+    # a state file larger than the parse buffer of load_state: request indices go on across chunks
+    case("big0", [["hub", 1, 1, 1], ["req", 0, "loadbig", 1000], ["respall", 0, 0]])
+    case("big1", [["hub", 2, 1, 2], ["req", 0, "loadbig", 900], ["respall", 0, 0], ["req", 1, "wok"], ["respall", 1, 0]])
+    return out
+
+
 def gen_cases(rng, tier):
     n, nslow = {"quick": (1500, 56), "thorough": (20000, 480), "search": (1200, 160)}.get(tier, (1500, 56))
-    out = silent_cases()
+    out = silent_cases() + second_round_cases()
     # a hub re-created by from_upgrade_data from the serialised UpgradeData of another (one worker stopped, or none)
     for i, sw in enumerate((-1, 0, 1, 2, -1, 1)):
         out.append(gen_case(rng, "u%d" % i, i >= 4, i == 3, handover=sw))
